@@ -144,6 +144,8 @@ claims = {
             "CRC-64 detection of flipped bytes is trusted, not decided.", "DESIGN.md 5 (C10)"),
     "C13": ("The real checkpointIfNeeded, exceedsTruncateThreshold, effectiveTruncatePageN, calcWALSize and isSQLiteBusyError are executed for every configuration in the stated ranges and every pair of WAL sizes before/after a sync round: when no checkpoint is requested the WAL is below the regular threshold (or holds one frame) and was below the emergency threshold; a requested checkpoint leaves one frame; TRUNCATE is requested only at the emergency threshold and first only after PASSIVE failed; a lagging emergency request arrives in the next round; busy PASSIVE checkpoints are not errors and at most two requests are made per round; from the steady state an idle sync requests nothing.",
             "The checkpoint itself is the E-CKPT contract. Known finding H5b (emergency threshold of one page) is reported as such.", "DESIGN.md 5 (C13), 7 (H5)"),
+    "C14": ("The real DB.init, ensureWALExists, bumpLitestreamSeq, acquireReadLock, releaseReadLock, rollback, checkpointWithExecutor (all four modes), execCheckpoint and Close run over symsql with every SQL call allowed to fail and the WAL either restarted or not: every statement sent is in the whitelist (journal_mode=wal, the two CREATE TABLE IF NOT EXISTS _litestream_*, the _litestream_seq upsert, the read-lock SELECT, page_size, the _litestream_lock insert, wal_checkpoint in the four modes); no transaction is ever committed; every transaction that executed the lock insert is rolled back before the function returns; the only transaction left open is the read lock; the database and WAL files are never written through the file API; the checkpoint mutex is released; Close releases the read lock and both handles on every path.",
+            "SQLite's own handling of these statements is outside the claim.", "DESIGN.md 5 (C14)"),
 }
 na_reasons = {
     "C12": "quantifies over goroutine interleavings and the Go memory model; a sequential SSA symbolic interpreter cannot soundly decide races or deadlocks and no concurrency-aware engine for Go exists in this image (DESIGN.md 6)",
@@ -307,11 +309,31 @@ props["C13"] = {
     "outside": ["that SQLite honours E-CKPT", "the real checkpointWithExecutor (covered by C14 and C01's checkpoint step)", "the Sync chunk loop's termination (C01)"],
 }
 
+props["C14"] = {
+    "level": "model_checking", "validate": 6,
+    "runs": [
+        run("root", "VxC14Init", {}, {}),
+        run("root", "VxC14Checkpoint", {}, {}),
+        run("root", "VxC14Close", {}, {}),
+    ],
+    "assumptions": [
+        "symsql: every database/sql call db.go makes (BeginTx, ExecContext, QueryRowContext/Scan, Tx.ExecContext/Rollback/Commit, Close) is handed to an environment handler that may fail it (SQLITE_BUSY) and that records statements and transaction lifetimes; natively the same handler sits behind a database/sql driver",
+        "what SQLite does with the whitelisted statements (they do not touch application tables; a rolled-back insert into _litestream_lock leaves it empty) is not decided here",
+        "environment cuts: sql.Open of the sqlite driver, setPersistWAL (driver file control), and the WAL copying between the SQL steps (verifyAndSyncWithExecutor, sync) with arbitrary outcomes",
+    ],
+    "stubs": ["symsql handler", "file-system model", "WAL-copy stand-ins (source rewrite)", "prometheus / slog no-op"],
+    "outside": ["SQLite's integrity and journal-mode behaviour", "checkpointV3 / checkIntegrity (they run on the restored copy, never on the source)", "snapshot reads (C02)"],
+}
+
 rewrites = [
     {"file": "replica.go", "from": "func checkpointV3(", "to": "func checkpointV3Real("},
     {"file": "replica.go", "from": "func (r *Replica) applyLTXFile(", "to": "func (r *Replica) applyLTXFileReal("},
     {"file": "replica.go", "from": "func checkIntegrity(", "to": "func checkIntegrityReal("},
     {"file": "db.go", "from": "func (db *DB) checkpointWithExecutor(", "to": "func (db *DB) checkpointWithExecutorReal("},
+    {"file": "db.go", "from": "sql.Open(\"sqlite\", dsn)", "to": "vxSQLOpenDSN(\"sqlite\", dsn)"},
+    {"file": "db.go", "from": "func (db *DB) setPersistWAL(", "to": "func (db *DB) setPersistWALReal("},
+    {"file": "db.go", "from": "func (db *DB) verifyAndSyncWithExecutor(", "to": "func (db *DB) verifyAndSyncWithExecutorReal("},
+    {"file": "db.go", "from": "func (db *DB) sync(", "to": "func (db *DB) syncReal("},
 ]
 
 spec = {"repo": "/repo", "groups": groups, "properties": props, "rewrites": rewrites}
